@@ -14,8 +14,6 @@ import (
 	"github.com/anishathalye/porcupine"
 	"google.golang.org/genproto/googleapis/api/annotations"
 	"google.golang.org/grpc"
-	"google.golang.org/grpc/codes"
-	"google.golang.org/grpc/status"
 	"google.golang.org/protobuf/proto"
 	"google.golang.org/protobuf/reflect/protoreflect"
 	"larking.io/larking"
@@ -126,7 +124,16 @@ func (e echoImpl) Unary(ctx context.Context, md protoreflect.MethodDescriptor, i
 }
 
 func (e echoImpl) Stream(md protoreflect.MethodDescriptor, ss grpc.ServerStream) error {
-	return status.Error(codes.Unimplemented, "no streams")
+	// the upper half of every service is server-streaming: one request,
+	// one reply
+	in := vschema.NewMsg(md.Input())
+	if err := ss.RecvMsg(in); err != nil {
+		return err
+	}
+	atomic.AddInt64(e.served, 1)
+	out := vschema.NewMsg(md.Output())
+	out.ProtoReflect().Set(md.Output().Fields().ByName("method"), protoreflect.ValueOfString(vschema.FullMethod(md)))
+	return ss.SendMsg(out)
 }
 
 func getRule(p string) *annotations.HttpRule {
@@ -167,7 +174,9 @@ func buildHistory(nGood, nFail int) (*history, error) {
 			if p.fail && m == methodsPerSvc-1 {
 				rule = getRule(fmt.Sprintf("/h%d/s%d/m%d/{no_such_field}", h.id, s, m))
 			}
-			svc.Methods = append(svc.Methods, vschema.Method{Name: fmt.Sprintf("Me%d", m), In: "vf.Req", Out: "vf.Rsp", Rule: rule})
+			// unary and streaming methods in one service (a service must
+			// become visible as a whole, whatever its methods' kinds)
+			svc.Methods = append(svc.Methods, vschema.Method{Name: fmt.Sprintf("Me%d", m), In: "vf.Req", Out: "vf.Rsp", Rule: rule, SS: m >= methodsPerSvc/2})
 		}
 		f.Services = append(f.Services, svc)
 		h.plans = append(h.plans, p)
